@@ -475,6 +475,10 @@ func (c *CaseC08) Eval(ob *Obs) []Finding {
 	w.Files[bi].Data = applyMut(w.Files[bi].Data, c.BookMut)
 	w.Files[li].Data = applyMut(w.Files[li].Data, c.LogMut)
 	w.Order = c.Order
+	if c.StatLie != "" {
+		ob.planned("stat_size_" + c.StatLie)
+		ob.fired("stat_size_" + c.StatLie)
+	}
 	for _, i := range []int{bi, li} {
 		n := int64(len(w.Files[i].Data))
 		switch c.StatLie {
